@@ -7,14 +7,51 @@ from vlib import core
 BASELINE = "cmake --build /repo/_build && /repo/_build/tests/core/test_core && /repo/_build/tests/cpu/test_cpu"
 
 # id -> (category, technique, level text, level note, design ref)
+SAN = "g++ ASan+UBSan builds (assertions on / -O2 NDEBUG) of harnesses over the real templates + "
 CHECKS = {
-    "C18": ("exploration",
-            "sanitizer build (ASan+UBSan, assertions on/off) + exhaustive differential oracle",
+    "C01": ("exploration", SAN + "ND-array model monitor and index-recording probe storage backend",
+            "Every extent vector up to the bound is enumerated for every (layer, N, coordinate type, storage) instantiation and every cell is written, "
+            "read back and checked for non-interference against a dense-array model under ASan with the library's bounds assertions on; a probe "
+            "storage backend observes every flat index for fields up to 2^62 cells.",
+            "Trusts the model (std::vector keyed by the model's own position function) and ASan/assertions as memory monitors; beyond the bound only sampled.",
+            "DESIGN.md section 4 C01"),
+    "C03": ("exploration", SAN + "binary128 exact interpolant with a-priori forward error bound",
+            "Executions of linear<..>::at for N 1..5 x M 1..4 (N != M), float/double coordinates and storage, three layers beneath, on non-affine and one-hot "
+            "data at adversarial coordinates, each compared with the exact N-linear sum in binary128 under an operation-count error bound; lattice points bit-exact.",
+            "Trusts libquadmath and the error analysis (slack factor 2, underflow term); corner values are read through the layer beneath, which C01/C14 check separately.",
+            "DESIGN.md section 4 C03"),
+    "C04": ("exploration", SAN + "exact distance oracle in binary128 on boundary-value workloads",
+            "Half-integers and their neighbouring representable values up to the mantissa width, values a float cannot hold, random coordinates; the chosen "
+            "lattice point is observed through nearest_neighbour<identity> and through id-carrying array fields.",
+            "Default rounding mode only; ties may go either way.", "DESIGN.md section 4 C04"),
+    "C09": ("exploration", SAN + "binary128 reference with running error bound",
+            "Random chains of 1..4 affine transforms in N 1..4, float/double, exact (small integers: equality) and rounded (error bound) tiers, both association orders, "
+            "factories and the affine layer over identity through both lookup forms.",
+            "Trusts the binary128 reference and the gamma bound with slack 4.", "DESIGN.md section 4 C09"),
+    "C10": ("exploration", SAN + "extremes-catalogue workload, reference clamp, probe storage",
+            "Type extremes, infinities, subnormals and values adjacent to every bound crossed over the axes for six coordinate types; clamp over array and probe "
+            "storage (fields up to 2^40 cells) and above both interpolators, under ASan with assertions on.",
+            "NaN excluded as the property states; clamp below an interpolator is exercised in C03.", "DESIGN.md section 4 C10"),
+    "C11": ("exploration", SAN + "query-counting probe backend",
+            "A probe backend counts the queries it receives: outside the closed box => default and 0 queries, inside => probe value and exactly 1 query, for "
+            "coordinates at and adjacent to every bound, N,M in 1..4 (N != M), five coordinate types; plus array storage under ASan.",
+            "Box membership evaluated in long double (exact for all generated values).", "DESIGN.md section 4 C11"),
+    "C14": ("exploration", SAN + "independent curve references (128-bit row-major, per-bit interleave, inverse Hilbert walk)",
+            "Exhaustive over small bit-widths / extent boxes / Hilbert squares up to k, boundary bit patterns and random beyond; BMI2 (pdep) and portable paths "
+            "compared with each other and with the reference in +bmi2 and plain builds; positions observed through the layers over identity<size1>.",
+            "Trusts harness/refs.hpp; coordinates above 2^floor(64/N) are out of the stated domain.", "DESIGN.md section 4 C14"),
+    "C18": ("exploration", SAN + "exhaustive differential oracle",
             "Exhaustive at 8 and 16 bits (and all 2^31 32-bit inputs in the thorough tier), boundary+random at 32/64 bits, "
-            "every extent box up to the bound for the sizing consequence; executions of the real templates compared with "
-            "bit-counting / modular-exponentiation references under ASan+UBSan in debug and NDEBUG builds.",
-            "Trusts the reference arithmetic in harness/refs.hpp (unsigned __int128) and std::bit_ceil; 64-bit inputs are sampled, not enumerated.",
+            "every extent box up to the bound for the sizing consequence.",
+            "Trusts the reference arithmetic in harness/refs.hpp (unsigned __int128); 64-bit inputs are sampled, not enumerated.",
             "DESIGN.md section 4 C18"),
+    "C19": ("exploration", SAN + "callback trace recorder with set oracle",
+            "Every extent vector with entries 0..B for 1..5 dimensions and five tuple types, plus random larger boxes; the recorded tuple multiset is compared with the box.",
+            "Order of visits is not asserted (the property states none).", "DESIGN.md section 4 C19"),
+    "C20": ("exploration", "generated tables of the metaprogram's outputs checked at run time against std::sort / std::is_permutation",
+            "All sequences up to length 4 (6 thorough) over 5 symbols for sorting and all pairs up to length 3 (4) over 4 symbols for the predicate, plus random long "
+            "sequences with 63-bit values; outputs are ordinary constants compared at run time, so a wrong result is a replayable row.",
+            "The metaprogram executes inside g++ 12; a row that fails to compile is a violation, not a skip.", "DESIGN.md section 4 C20"),
 }
 
 NOT_YET = {}
